@@ -110,6 +110,10 @@ func runC12(args []string) {
 			addPkg(n.Name, n.S, pw[len(pkgs)%len(pw)], nil)
 		}
 	}
+	for i, n := range schema.ExtremesFamily() {
+		addPkg(n.Name, n.S, pw[i%len(pw)], nil)
+		addPkg(n.Name, n.S, pw[(i+3)%len(pw)], nil)
+	}
 	for _, h := range hazardFamily() {
 		for _, o := range []Opts{{}, {Private: true}, {Private: true, Pointers: true, Unsafe: true}} {
 			addPkg(h.Name, h.S, o, nil)
@@ -153,7 +157,7 @@ func runC12(args []string) {
 		if p.ReadErr != "" || p.GenErr != "" {
 			rejected++
 			r.Hist("rejected by ReadFile/Generate (outside the domain)")
-			if p.Cell != nil || fam == "random" || fam == "construct" || fam == "imports" {
+			if p.Cell != nil || fam == "random" || fam == "construct" || fam == "imports" || fam == "extremes" {
 				// these are well-formed by construction: a rejection is reported (it would hide the cell)
 				r.Eval("")
 				detail["error"] = p.ReadErr + p.GenErr
